@@ -722,12 +722,15 @@ def rule_trunc(c, prog):
                     else:
                         c.ok(R, "binary:unknown-chunk-skipped")
     # next_chunk -> Chunk::decode -> read_exact on the header
-    hdr = prog.fn("rbx_binary::chunk::decode_chunk_header")
-    reads = [core.callee_generic(n) for n in core.walk_fn(hdr) if n.get("k") == "MethodCall"]
+    # (the header is read by Chunk::decode itself or by private helpers of its module: all of them are looked at)
+    dec = prog.fn("rbx_binary::chunk::Chunk::decode")
+    g_ = flow.CallGraph(prog)
+    region = [prog.fns[p_] for p_ in sorted(g_.reach([dec.path])) if p_.startswith("rbx_binary::chunk::") and prog.fns[p_].body is not None]
+    reads = [core.callee_generic(n) for f_ in region for n in core.walk_fn(f_) if n.get("k") == "MethodCall"]
     if "std::io::Read::read_exact" in reads and not any(r == "std::io::Read::read" for r in reads):
         c.ok(R, "binary:header-read_exact")
     else:
-        c.violation(R, "binary|header-read", "decode_chunk_header no longer reads the chunk name with read_exact (EOF must be an error)", hdr.sp, instance="binary:header-read_exact")
+        c.violation(R, "binary|header-read", "Chunk::decode (with its helpers) no longer reads the chunk header with read_exact (EOF must be an error)", dec.sp, instance="binary:header-read_exact")
 
 
 def is_try_ret(root, ret):
